@@ -1,6 +1,7 @@
 use super::{
     Namespace, TryFromNode,
     doc::{ComponentKind, RustDocument},
+    node::collect_namespaces_on_node,
 };
 use crate::{
     error::{WriterError, WriterResult},
@@ -35,6 +36,18 @@ impl<'n> TryFromNode<'n> for Field {
             return Err(WriterError::NotAnElement);
         }
 
+        // a local element or attribute may declare the prefixes it uses on itself
+        // (`<xs:element name="x" type="q1:T" xmlns:q1="…"/>`); they hold for this member only
+        let enclosing_scope = doc.namespace_scope();
+        collect_namespaces_on_node(node, doc);
+        let field = Self::read_member(node, doc);
+        doc.restore_namespace_scope(enclosing_scope);
+        field
+    }
+}
+
+impl Field {
+    fn read_member<'n>(node: Node<'n, 'n>, doc: &mut RustDocument) -> WriterResult<Self> {
         let mut target_namespace = None;
         if let Some(use_target_namespace) = node.attribute("targetNamespace") {
             doc.switch_to_target_namespace(use_target_namespace);
